@@ -33,6 +33,10 @@ func init() {
 				Run: ruleC13d},
 			{ID: "C13.f", Template: "T-OWN", Required: true, Run: ruleNoCompressorCopy,
 				Doc: "Compressors and decompressors are only handled through the pointers their constructors return; no value of a compress/* struct type is copied by dereference. Shallow copies are distinct objects for a pool but share the inner flate state: a provider that pre-fills its cache with copies of one reader hands 'different' objects to two requests that then corrupt each other."},
+			{ID: "C13.g", Template: "T-GUARD", Required: true, Run: ruleC07c,
+				Doc: "'Released exactly once': the writer's constructor stores the constant of the coding it acquired a compressor for, and Close releases by that field (same obligations as C07.c). Storing the caller's spelling ('GZIP') while Close compares with the constants acquires a compressor that is never released."},
+			{ID: "C13.h", Template: "T-GUARD", Required: false, Run: ruleFillWithinCapacity,
+				Doc: "'Never a reason to block, whatever the pool capacity': outside Acquire/Release the module sends on a channel only to pre-fill a cache, in a loop bounded by the capacity the channel was made with. A channel made with the writers' capacity and filled with the readers' count blocks the constructor forever when readers > writers."},
 		},
 	})
 }
